@@ -826,6 +826,7 @@ pub fn main(env: &Env) -> i32 {
             "mux_raw" => common::replay_case::<MuxRawCase>(case, check_mux_raw),
             "rpc_garbage" => common::replay_case::<RpcCase>(case, check_rpc),
             "live_node" => common::replay_case::<LiveCase>(case, check_live),
+            "live_state" => common::replay_case::<crate::c19::StateCase>(case, crate::c19::check_state),
             "mux_flood" => common::replay_case::<crate::c14::FloodCase>(case, crate::c14::check_flood),
             p => Err(format!("unknown part {p}")),
         };
@@ -836,6 +837,7 @@ pub fn main(env: &Env) -> i32 {
     parts.extend(common::run_regress::<MuxRawCase>(env, "mux_raw", check_mux_raw));
     parts.extend(common::run_regress::<RpcCase>(env, "rpc_garbage", check_rpc));
     parts.extend(common::run_regress::<LiveCase>(env, "live_node", check_live));
+    parts.extend(common::run_regress::<crate::c19::StateCase>(env, "live_state", crate::c19::check_state));
     let n = entries().len();
     parts.push(run_proptest(
         env,
@@ -912,6 +914,15 @@ pub fn main(env: &Env) -> i32 {
         PartOpts { cases: env.tier.pick(320, 8_000), max_shrink_iters: 60, samples: 2 },
         || Choices::strategy(60).prop_map(|mut ch| gen_live(&mut ch)),
         check_live,
+    ));
+    parts.push(run_proptest(
+        env,
+        "live_state",
+        "a real gossip node (gossip state, block fetcher loop, per-connection handler with its push_block_store_state server and get_block client) with an empty store against a hostile scripted peer over loopback TCP (real preface / noise / handshake, hand-made RPC frames): 1-4 block-range announcements whose first block and last block - absent, a pre-genesis number, or a commit certificate carrying that number - are 0, 1, 2^k, u64::MAX-1, u64::MAX or random, a third of them additionally mutated at wire level by the schema-aware extremiser; the peer never answers the node's requests and comes back under another identity when it is dropped; \
+         oracle: no task of the node panics (a panic of the handler or fetcher surfaces in the harness), and once the hostile connection has ended an honest peer that announces the real chain gets every block fetched and stored unchanged. Non-trivial = at least one hostile announcement was acknowledged",
+        PartOpts { cases: env.tier.pick(320, 8_000), max_shrink_iters: 60, samples: 2 },
+        || Choices::strategy(120).prop_map(|mut ch| crate::c19::gen_state(&mut ch)),
+        crate::c19::check_state,
     ));
     env.finish(
         "exploration",
